@@ -316,6 +316,10 @@ class State:
         s.nundef = 0
         s.steps = 0
         s.cand = {}         # term id -> feasible values (over-approximation)
+        s.in_merge = False
+        s.run_cache = None  # shared by all paths of one run()
+        s.run_keep = None
+        s.base_len = 0
         s.trace = None
         s.notes = []        # free-form (panic locations seen, etc.)
 
@@ -331,6 +335,10 @@ class State:
         t.nundef = s.nundef
         t.steps = s.steps
         t.cand = dict(s.cand)
+        t.in_merge = s.in_merge
+        t.run_cache = s.run_cache
+        t.run_keep = s.run_keep
+        t.base_len = s.base_len
         t.trace = None if s.trace is None else list(s.trace)
         t.notes = list(s.notes)
         return t
@@ -373,6 +381,7 @@ class SolverCtx:
         s.unsat = 0
         import os
         s.slow = float(os.environ['SEIR_SLOW']) if os.environ.get('SEIR_SLOW') else None
+        s.origins = {}
 
     def sync(s, pc):
         st = s.stack
@@ -390,6 +399,11 @@ class SolverCtx:
             st.append(c)
 
     def check(s, pc, *extra, want_model=True):
+        import traceback as _tb
+        if s.slow is not None:
+            fr = _tb.extract_stack(limit=4)
+            k = ' < '.join(f.name for f in reversed(fr[:-1]))
+            s.origins[k] = s.origins.get(k, 0) + 1
         s.sync(pc)
         t0 = time.time()
         s.sol.push()
@@ -450,6 +464,7 @@ class SolverCtx:
             while True:
                 r = sol.check()
                 s.queries += 1
+                s.origins['enumerate'] = s.origins.get('enumerate', 0) + 1
                 if r == z3.unknown:
                     raise Inconclusive("solver returned unknown (%s)" % sol.reason_unknown())
                 if r == z3.unsat:
@@ -652,13 +667,26 @@ class VM:
         ok, model = s.solver.check(st.pc, *extra)
         return model if ok else None
 
-    def values_of(s, st, term, limit=None):
-        """all feasible values of a bit-vector term (cached over-approximation)"""
+    def values_of(s, st, term, limit=None, exact=False):
+        """feasible values of a bit-vector term.  exact: under the current path condition.
+        Otherwise an over-approximation is enough (extra candidates only add dead ite arms):
+        it is computed once per run under the path condition the run started with, and shared
+        by all paths of the run."""
         limit = limit or s.opts['max_cands']
         tid = term.get_id()
         c = st.cand.get(tid)
         if c is not None:
             return c
+        if not exact and st.run_cache is not None:
+            c = st.run_cache.get(tid)
+            if c is None:
+                c = s.solver.enumerate(st.pc[:st.base_len], term, limit)
+                if c is not None:
+                    c.sort()
+                    st.run_cache[tid] = c
+                    st.run_keep.append(term)      # keep the term alive: ids are reused after gc
+            if c is not None:
+                return c
         vals = s.solver.enumerate(st.pc, term, limit)
         if vals is None:
             raise Inconclusive("more than %d feasible values for %s" % (limit, str(term)[:200]))
@@ -678,7 +706,7 @@ class VM:
         k = st.known.get(x.get_id())
         if k is not None:
             return k
-        vals = s.values_of(st, x, limit or s.opts['max_fork'])
+        vals = s.values_of(st, x, limit or s.opts['max_fork'], exact=True)
         if len(vals) == 1:
             st.known[x.get_id()] = vals[0]
             return vals[0]
@@ -846,11 +874,18 @@ class VM:
             raise Inconclusive("no function " + fname)
         st = st0.fork()
         depth = len(st.frames)
+        st.run_cache = {}
+        st.run_keep = []
+        st.base_len = len(st.pc)
         s.push_frame(st, f, args, None)
         work = [st]
         outs = []
         while work:
             st = work.pop()
+            if isinstance(st, Outcome):
+                outs.append(st)
+                s.stats['paths'] += 1
+                continue
             o = s.exec_path(st, depth, work)
             if o is not None:
                 outs.append(o)
@@ -883,6 +918,9 @@ class VM:
                         if t is not st:
                             work.append(t)
                     s.stats['forks'] += len(fo.values) - 1
+                    continue
+                if r is not None and type(r[0]) is str and r[0] == 'switch!':
+                    st = r[1]
                     continue
                 if r is not None:
                     # return from frame
@@ -975,6 +1013,9 @@ class VM:
             st.model = mT
             s.goto(st, fr, lt)
             s.stats['forks'] += 1
+            fs = s.stats.setdefault('fork_sites', {})
+            k = (fr.fn.name[-60:], fr.prev)
+            fs[k] = fs.get(k, 0) + 1
         elif okT:
             st.model = mT
             s.goto(st, fr, lt)
@@ -1387,9 +1428,122 @@ class VM:
             return None
         if f is None:
             raise Inconclusive("call to external function without a stub: " + name)
+        mp = s.opts.get('merge_calls')
+        if mp and not st.in_merge and any(p in name for p in mp):
+            return s.merged_call(st, fr, ins, name, argv, work)
         fr.ip += 1
         s.push_frame(st, f, argv, ins.res)
         return None
+
+    def merged_call(s, st, fr, ins, name, argv, work):
+        """run the callee to completion on every path and join the returning paths into one state
+        (cellwise if-then-else under the paths' conditions); other outcomes go on as they are"""
+        st.in_merge = True
+        try:
+            outs = s.run(st, name, argv)
+        finally:
+            st.in_merge = False
+        rets = []
+        for o in outs:
+            o.st.in_merge = False
+            if o.kind == 'ret':
+                rets.append(o)
+            else:
+                work.append(o)
+        s.stats['paths'] -= len(outs)
+        if not rets:
+            raise Terminal('infeasible')
+        merged = merge_states(s, st, rets, getattr(ins.a[0], 'bits', 64)) if len(rets) > 1 else (rets[0].st, rets[0].value)
+        if merged is None:
+            s.stats['unmerged'] = s.stats.get('unmerged', 0) + 1
+            for o in rets[1:]:
+                cf = o.st.frames[-1]
+                if ins.res is not None:
+                    cf.env[ins.res] = o.value
+                cf.ip += 1
+                work.append(o.st)
+            o = rets[0]
+            cf = o.st.frames[-1]
+            if ins.res is not None:
+                cf.env[ins.res] = o.value
+            cf.ip += 1
+            return ('switch!', o.st)
+        st2, val = merged
+        s.stats['merged'] = s.stats.get('merged', 0) + len(rets) - 1
+        cf = st2.frames[-1]
+        if ins.res is not None:
+            cf.env[ins.res] = val
+        cf.ip += 1
+        return ('switch!', st2)
+
+
+def merge_states(vm, base, rets, bits):
+    """join the states of several returning paths of one call; None if they cannot be joined
+    (an allocation is live on one path and freed on another)"""
+    n0 = len(base.pc)
+    guards = []
+    for o in rets:
+        ex = o.st.pc[n0:]
+        guards.append(z3.And(*ex) if len(ex) > 1 else (ex[0] if ex else z3.BoolVal(True)))
+    mems = [o.st.mem for o in rets]
+    bases = {}
+    for m in mems:
+        for pg, a in m.pages.items():
+            bases.setdefault(a.base, pg)
+    acc = rets[-1].st.fork()
+    acc.pc = list(base.pc)
+    acc.pc.append(z3.simplify(z3.Or(*guards)))
+    acc.model = None
+    acc.known = dict(base.known)
+    acc.cand = dict(base.cand)
+    acc.run_cache = base.run_cache
+    acc.run_keep = base.run_keep
+    acc.base_len = base.base_len
+    for o in rets:
+        acc.undefs |= o.st.undefs
+        acc.nundef = max(acc.nundef, o.st.nundef)
+        acc.steps = max(acc.steps, o.st.steps)
+    am = acc.mem
+    for b, pg in bases.items():
+        objs = [m.pages.get(pg) for m in mems]
+        first = objs[0]
+        if all(x is first for x in objs):
+            continue
+        present = [x for x in objs if x is not None]
+        if len(present) < len(objs):
+            # allocated on some paths only: nobody else can reach it
+            x = present[0]
+            for p2 in range(x.base >> PAGE, ((x.base + max(x.size, 1) - 1) >> PAGE) + 1):
+                am.pages[p2] = x
+            continue
+        if any(x.live != first.live or x.size != first.size for x in objs):
+            return None
+        cells = list(objs[-1].cells)
+        for k in reversed(range(len(objs) - 1)):
+            if objs[k] is objs[-1] and k == len(objs) - 2 and False:
+                continue
+            cells = merge_cells(guards[k], objs[k].cells, cells, acc)
+        na = objs[-1].clone(am.id)
+        na.cells = cells
+        for p2 in range(na.base >> PAGE, ((na.base + max(na.size, 1) - 1) >> PAGE) + 1):
+            am.pages[p2] = na
+    val = rets[-1].value
+    for k in reversed(range(len(rets) - 1)):
+        val = _ite_val(guards[k], rets[k].value, val, bits)
+    return acc, val
+
+
+def _ite_val(g, x, y, bits):
+    if x is None and y is None:
+        return None
+    if isinstance(x, tuple):
+        return tuple(_ite_val(g, a, b, 64) for a, b in zip(x, y))
+    if isinstance(x, int) and isinstance(y, int) and x == y:
+        return x
+    if isinstance(x, z3.BoolRef) or isinstance(y, z3.BoolRef) or bits == 1:
+        return simp(z3.If(g, to_bool(x), to_bool(y)))
+    w = x.size() if is_sym(x) else (y.size() if is_sym(y) else bits)
+    return simp(z3.If(g, to_bv(x, w), to_bv(y, w)))
 
 
 def _insert(x, idx, v):
